@@ -759,7 +759,12 @@ func (n *Node) unRefExternal() {
 	if atomic.AddInt32(&n.ref, -1) == 0 {
 		n.r.mu.RLock()
 		if n.r.closed {
-			n.callFinalizer()
+			// The node may have been revived before the cache was closed,
+			// its value then belongs to the new handle. No reference can be
+			// taken on a closed cache, so the counter cannot rise anymore.
+			if atomic.LoadInt32(&n.ref) == 0 {
+				n.callFinalizer()
+			}
 		} else {
 			n.r.delete(n)
 			atomic.AddInt64(&n.r.statDel, 1)
